@@ -92,7 +92,10 @@ def histories(draw, tier):
         corrupted = strand
     mask = draw(gens.masks(k, [0.5, 0.65, 0.8, 0.9]))
     desc = {"graph": graph, "bits": bits, "table": table, "mask": "".join(map(str, mask)),
-            "mask_bool": draw(st.booleans()), "filter": draw(gens.local_filter_cfgs(k, decidable=True)),
+            "mask_bool": draw(st.booleans()),
+            "filter": draw(gens.local_filter_cfgs(k, decidable=True)) if draw(st.sampled_from([True] * 5 + [False]))
+            else {"k": k, "run": None, "gc": None, "motifs": None},
+            "map_order": draw(st.sampled_from([None, 1, 2, 3])),
             "strand": strand, "corrupted": corrupted,
             "number": str(draw(st.integers(10, 10 ** 30)))}
     ops = draw(st.lists(op_strategy(k), min_size=4, max_size=14))
